@@ -3,7 +3,7 @@ from __future__ import annotations
 
 ID = "C04"
 LEVEL = "other"
-CONTRACT_MODULES = ["contracts.params", "contracts.textsplice"]
+CONTRACT_MODULES = ["contracts.params", "contracts.textsplice", "contracts.auth", "contracts.transport"]
 EXPLANATION = ("For every operation of the shape corpus the EMITTED endpoint method is verified by pyvc against a contract computed from the raw "
                "OpenAPI document by an oracle written from the statement: exactly one transport.request call on every exit that follows it; "
                "method literal; URL = base_url + path with every {p} replaced by the serialised argument; query and header maps = exactly the "
@@ -11,8 +11,12 @@ EXPLANATION = ("For every operation of the shape corpus the EMITTED endpoint met
                "body keyword by content type. Proved for all argument values; bounded in the set of spec shapes (stated). Independently of shapes, the "
                "GENERATOR loops that emit those maps carry statement contracts (one arbitrary parameter): exactly one dict entry is written per query / "
                "header / cookie parameter, it contains the wire-name literal python_string_literal(original_name) and the serialised argument of that "
-               "parameter — for every specification.")
-TRUSTED = ["DataclassSerializer.serialize is an uninterpreted function of its argument (its laws are C16); serialize(None) is None",
+               "parameter — for every specification. What the emitted method hands to the transport then passes through the bundled transport and auth "
+               "plugins unchanged except for the plugin's own contribution (contracts shared with C17: nothing of the caller's params / cookies / body is "
+               "lost or moved to another location).")
+TRUSTED = ["DataclassSerializer.serialize is an uninterpreted function of its argument in the emitted-code contracts; that serialize(None) is None and that "
+           "str / int / bool arguments pass through unchanged is discharged on the real serializer under C16 (contracts/serializer.py: "
+           "ser_scalars_unchanged, swt_scalars_unchanged); its behaviour on models and containers is C16's subject",
            "the oracle reads parameters/body straight from the raw document (no $ref'd parameters in the corpus)",
            "argument naming: parameters are matched to arguments through a reference snake-case derivation (naming itself is C20)"]
 
@@ -61,3 +65,11 @@ MANIFEST = {
             "dispatch methods whose implementation is outside the engine's subset are listed as skipped.",
     "technique": "contract-based deductive verification of emitted code (pyvc + z3) against an oracle contract over an enumerated shape corpus + statement contracts on the generator's parameter loops",
 }
+
+
+def _shared_replay():
+    from props import C17
+    return C17.REPLAY
+
+
+REPLAY = _shared_replay()  # auth plugins / transport: the replay hooks of C17 (same contracts)
